@@ -513,6 +513,8 @@ def run_check(P: Prop, tier: str, seed: int, replay: str | None = None) -> int:
         "exhaustive": False,
         "repo": str(REPO),
     }
+    if obligations == 0:  # nothing proved yet: do not pretend (falls back to the exploration keys)
+        del cov["obligations"], cov["discharged"]
     cov.update(P.extra_coverage())
     ev = {
         "property_id": P.id,
